@@ -263,6 +263,7 @@ var hostileConstants = []string{
 	"SET a = foo(:x)", "SET a = size(a)", "SET (a) = :x", "SET a = (:x)", "REMOVE a b", "ADD a :x :y", "SET a = :x junk", "SET a = :x )", "SET a[ = :x",
 	strings.Repeat("(", 2000), strings.Repeat("(", 1000) + "a = :x" + strings.Repeat(")", 1000), strings.Repeat("NOT ", 1000) + "a = :x",
 	strings.Repeat("a = :x AND ", 300) + "a = :x", strings.Repeat("a.", 2000), "a = :x" + strings.Repeat(" ", 4000), strings.Repeat("a", 4096),
+	"caf\xe9 = :x", "SET caf\xe9 = :x", "\xb5 = :x", "µ = :x", "SET põe = :x", "\xaa = :x", "人 = :x", "е = :x", "attribute_exists(ê)", "REMOVE ú", "a = :x AND \xc0\xd6 = :y",
 	"SET a = :x set b = :y", "set a = :x SET b = :y", "REMOVE a remove b", "ADD n :v1 SET a = :x add n :v1", "Set a = :x SET b = :y", "DELETE ss :v4 Delete ss :v4",
 	"#cyc = :x", "attribute_exists(#cyc)", "SET #cyc = :x", "REMOVE #cyc", "#ch1 = :x", "SET a = #ch2", "#cyc.k = :x", "a.#ch1 = :x",
 	"SET l[:big] = :x", "REMOVE l[:big]", "l[:big] = :x", "SET l[:neg1] = :x", "REMOVE l[:frac]", "SET l[:huge] = :x", "l[:v1] = :x", "SET l[:v1] = :x", "REMOVE m.k[:big]",
